@@ -1,7 +1,9 @@
 """C04 - constants are immutable and pure functions stay pure.
 
 SyltPurity (TLA+) defines the universe of cases (forbidden construct x form x placement) with, per case, the planted
-program, its base programs and the clause of the property the planted program violates. MC_Purity emits the tier's
+program, its base programs and the clause of the property the planted program violates. Part D (round 3) crosses
+the constructs forbidden inside `pu` with the kind of value involved (int, list, blob, tuple, pu / fn function, function literal) and the syntactic
+position of the name / value (callee in four call surfaces, argument, operand, receiver, index base, arrow-call target). MC_Purity emits the tier's
 share of the universe (mode emit; spec-level assertions: every cell of the cross products is inhabited, planted # base,
 case ids are injective), the harness renders and compiles every program through sylt's public API, and MC_Purity
 (mode validate) re-derives the universe, asserts that the recorded trace covers exactly the tier's share, and decides
@@ -18,11 +20,55 @@ def sig_of(cid, why):
     return "C04|%s|%s|%s|%s|%s" % (cid["part"], cid["kind"], cid["form"], cid["path"], why)
 
 
+def _unescape(s):
+    """TLC's string escapes are a subset of JSON's: unescape in C; fall back to vlib's loop for anything unexpected."""
+    try:
+        return json.loads('"' + s + '"', strict=False)
+    except ValueError:
+        return vlib._unescape_tla(s)
+
+
+def stream_cases(log, cf):
+    """Copy the REPLAY records of TLC's output into the case file one by one (the thorough universe is ~400 MB of JSON: it is
+    never held in memory). Returns (number of distinct cases, cases per clause)."""
+    seen, by_clause = set(), {}
+    with open(log, encoding="utf-8", errors="replace") as lf, open(cf, "w") as out:
+        for line in lf:
+            if not line.startswith('<<"REPLAY", "'):
+                continue
+            m = vlib._PRINT_RE.match(line.rstrip("\n"))
+            if not m:
+                continue
+            try:
+                p = json.loads(_unescape(m.group(2)))
+            except ValueError as ex:
+                vlib.tool_error("cannot parse TLC print line: %s (%s)" % (line[:200], ex))
+            h = vlib.sha(p["id"])
+            if h in seen:          # an expression under ENABLED is evaluated twice
+                continue
+            seen.add(h)
+            by_clause[p["clause"]] = by_clause.get(p["clause"], 0) + 1
+            out.write(json.dumps(p, separators=(",", ":")) + "\n")
+    return len(seen), by_clause
+
+
+def pick(cf, idxs):
+    """the cases with the given 0-based indices, read from the case file"""
+    want, got = set(idxs), {}
+    if want:
+        with open(cf) as f:
+            for i, line in enumerate(f):
+                if i in want:
+                    got[i] = json.loads(line)
+    return got
+
+
 def validate(wd, tf, tier, seed, name, replay_one=False, workers=None):
     env = {"MODE": "validate", "TRACE": tf, "TIER": tier, "SEED": seed}
     if replay_one:
         env["REPLAYONE"] = "1"
-    return vlib.tlc("MC_Purity", wd=wd, env=env, tags=("REJECT", "VACUOUS"), timeout=1500, xmx="8g", workers=workers,
+    # few workers: TLC evaluates the constant definitions (the universe) once per worker at start-up, the per-record work is tiny
+    return vlib.tlc("MC_Purity", wd=wd, env=env, tags=("REJECT", "VACUOUS"), timeout=1500, xmx="8g", workers=workers or 2,
                     out_file=os.path.join(wd, "tlc-%s.out" % name))
 
 
@@ -33,30 +79,29 @@ def run(ctx):
     verdicts = vlib.Verdicts(PID)
     vlib.build_harness()
 
-    if ctx.replay:
-        cases = [json.load(open(ctx.replay))["replay"]["case"]]
-    else:
-        r = vlib.tlc("MC_Purity", wd=wd, env={"MODE": "emit", "TIER": tier, "SEED": ctx.seed}, tags=("REPLAY", "UNIVERSE"),
-                     timeout=1500, xmx="8g", out_file=os.path.join(wd, "tlc-emit.out"))
-        vlib.require_tlc_ok(r, "MC_Purity emit")
-        uni = [p for (t, p) in r.records if t == "UNIVERSE"]
-        byid = {}
-        for (t, p) in r.records:
-            if t == "REPLAY":
-                byid.setdefault(vlib.sha(p["id"]), p)
-        cases = list(byid.values())
-        if not uni or len(cases) != uni[0]["selected"]:
-            vlib.tool_error("emit: %d cases printed, specification selected %s" % (len(cases), uni[:1]))
-        if r.coverage.get("Emit", (0, 0))[0] == 0:
-            vlib.tool_error("vacuity: action Emit never fired")
-        if len(cases) < (15000 if tier == "thorough" else 3000):
-            vlib.tool_error("vacuity: only %d cases" % len(cases))
-        ev.set(universe_cases=uni[0]["all"], selected_cases=uni[0]["selected"], states=r.distinct, transitions=r.generated,
-               exhaustive=(tier == "thorough"))
-
     cf = os.path.join(wd, "cases.ndjson")
     tf = os.path.join(wd, "trace.ndjson")
-    vlib.write_ndjson(cf, cases)
+    if ctx.replay:
+        one = json.load(open(ctx.replay))["replay"]["case"]
+        vlib.write_ndjson(cf, [one])
+        ncases, by_clause = 1, {one["clause"]: 1}
+    else:
+        r = vlib.tlc("MC_Purity", wd=wd, env={"MODE": "emit", "TIER": tier, "SEED": ctx.seed}, tags=("UNIVERSE",),
+                     timeout=1500, xmx="8g", workers=4, out_file=os.path.join(wd, "tlc-emit.out"))
+        vlib.require_tlc_ok(r, "MC_Purity emit")
+        uni = [p for (t, p) in r.records if t == "UNIVERSE"]
+        ncases, by_clause = stream_cases(r.log, cf)
+        if not uni or ncases != uni[0]["selected"]:
+            vlib.tool_error("emit: %d cases printed, specification selected %s" % (ncases, uni[:1]))
+        if r.coverage.get("Emit", (0, 0))[0] == 0:
+            vlib.tool_error("vacuity: action Emit never fired")
+        if ncases < (30000 if tier == "thorough" else 6000):
+            vlib.tool_error("vacuity: only %d cases" % ncases)
+        ev.set(universe_cases=uni[0]["all"], selected_cases=uni[0]["selected"], states=r.distinct, transitions=r.generated,
+               exhaustive=(tier == "thorough"))
+        if os.path.getsize(r.log) > 200e6:      # 0.5 GB in the thorough tier; everything needed is in the case file
+            os.remove(r.log)
+
     vlib.harness("c04", ["record", cf, tf], timeout=1500)
     recs = vlib.read_ndjson(tf)
     v = validate(wd, tf, tier, ctx.seed, "validate", replay_one=bool(ctx.replay))
@@ -69,8 +114,9 @@ def run(ctx):
         flagged[p["rec"]] = (t, p["why"])
     vacuous = {}
     nviol = 0
+    fcases = pick(cf, [k - 1 for k, (t, _) in flagged.items() if t != "VACUOUS"])
     for k, (t, why) in sorted(flagged.items()):
-        rec, case = recs[k - 1], cases[k - 1]
+        rec, case = recs[k - 1], fcases.get(k - 1)
         cid = rec["id"]
         if t == "VACUOUS":
             vacuous.setdefault("%s|%s|%s" % (cid["part"], cid["kind"], cid["path"]), rec.get("bases_detail"))
@@ -91,7 +137,7 @@ def run(ctx):
     if not ctx.replay:
         if nvac > 0.05 * n:
             vlib.tool_error("vacuity: %d of %d cases have a rejected base program, e.g. %s" % (nvac, n, list(vacuous.items())[:3]))
-        for part in "ABC":
+        for part in "ABCD":
             tot = sum(1 for r_ in recs if r_["id"]["part"] == part)
             lv = sum(1 for i in live if i["part"] == part)
             if tot == 0 or lv < 0.95 * tot:
@@ -100,20 +146,22 @@ def run(ctx):
         cells_live = {(i["part"], i["kind"], i["form"]) for i in live}
         if cells_all - cells_live:
             vlib.tool_error("vacuity: no live case for %s" % sorted(cells_all - cells_live)[:5])
-        for part in "AB":
+        for part in "ABD":
             el_all = {e for r_ in recs if r_["id"]["part"] == part for e in r_["id"]["path"].split(">")}
             el_live = {e for i in live if i["part"] == part for e in i["path"].split(">")}
-            if el_all - el_live or len(el_all) < (11 if part == "A" else 13):
+            if el_all - el_live or len(el_all) < (11 if part == "A" else 13):   # 10 / 12 elements + "direct"
                 vlib.tool_error("vacuity: part %s placement elements without a live case: %s (seen %d)" % (part, sorted(el_all - el_live), len(el_all)))
 
         # negative controls: (a) a stub that reports planted programs as accepted must be rejected by the specification,
         # (b) a trace with one record missing must fail the specification's completeness assumption
         held = [k for k in range(n) if (k + 1) not in flagged]
-        sub = [cases[k] for k in held[:: max(1, len(held) // 60)]][:60]
+        subidx = held[:: max(1, len(held) // 60)][:60]
+        subcases = pick(cf, subidx)
+        sub = [subcases[k] for k in subidx]
         ncf, ntf = os.path.join(wd, "neg-cases.ndjson"), os.path.join(wd, "neg-trace.ndjson")
         vlib.write_ndjson(ncf, sub)
         vlib.harness("c04", ["record", ncf, ntf], env={"C04_STUB": "accept"})
-        nv = validate(wd, ntf, tier, ctx.seed, "neg-stub", replay_one=True, workers=4)
+        nv = validate(wd, ntf, tier, ctx.seed, "neg-stub", replay_one=True, workers=1)
         vlib.require_tlc_ok(nv, "MC_Purity negative control (stub)")
         want = {i + 1 for i in range(len(sub)) if i % 2 == 0}
         got = {p["rec"] for (t, p) in nv.records if t == "REJECT" and p["why"] == "planted-accepted"}
@@ -121,21 +169,18 @@ def run(ctx):
             vlib.tool_error("negative control: stubbed records %s, rejected %s" % (sorted(want)[:10], sorted(got)[:10]))
         dtf = os.path.join(wd, "neg-dropped.ndjson")
         vlib.write_ndjson(dtf, recs[:-1])
-        dv = validate(wd, dtf, tier, ctx.seed, "neg-drop", workers=4)
+        dv = validate(wd, dtf, tier, ctx.seed, "neg-drop", workers=1)
         if dv.ok or dv.timed_out:
             vlib.tool_error("negative control: a trace with a missing record was accepted as complete")
         ev.set(negative_controls_rejected=len(got) + 1)
 
-    by_clause = {}
-    for c in cases:
-        by_clause[c["clause"]] = by_clause.get(c["clause"], 0) + 1
     ev.add("states", v.distinct)
     ev.add("transitions", v.generated)
     ev.set(traces_validated_against_impl=n, programs=sum(1 + len(r_["bases"]) for r_ in recs), evaluations=n,
-           distinct_nontrivial=len(live), cases_by_clause=by_clause, cases_by_part={p: sum(1 for r_ in recs if r_["id"]["part"] == p) for p in "ABC"},
+           distinct_nontrivial=len(live), cases_by_clause=by_clause, cases_by_part={p: sum(1 for r_ in recs if r_["id"]["part"] == p) for p in "ABCD"},
            base_rejected=nvac, base_rejected_examples=dict(list(vacuous.items())[:5]), planted_not_rejected=nviol,
            rule="cases of SyltPurity!Cases selected by MC_Purity!Selected (thorough: all; quick: all placements of length <= 1 (A) / <= 2 (B), "
-                "a seeded 1/4 resp. 1/16 of the longer ones, all of C); a case is non-trivial (live) when every base program is accepted, "
+                "a seeded 1/4 resp. 1/16 of the longer ones, all of C, all placements of length <= 1 and a seeded 1/16 of those of length 2 (D)); a case is non-trivial (live) when every base program is accepted, "
                 "so that the planted construct is the only candidate reason for a rejection",
            samples=[{"id": r_["id"], "planted": r_["planted"], "bases": r_["bases"], "planted_src": r_.get("planted_src")} for r_ in recs[:3]],
            known_findings_hit=verdicts.known_hits)
